@@ -6,7 +6,9 @@
 //! else happens to the connection):
 //!
 //! * MSS      every TCP segment seen on the wire has payload <= mtu - ip_header - 20
-//!            of the interface it left from;
+//!            of the interface it left from, with the IP header of THAT segment's
+//!            family — whatever other sockets (other family, loopback, own
+//!            address: other MSS) are busy on the same host at the same time;
 //! * CAPS     after the task phase and after the deliveries of every round,
 //!            every TCP socket (not a listener) has send_q <= send_buf_cap and
 //!            recv_q <= recv_buf_cap, on both hosts, cross-host and loopback;
@@ -30,6 +32,7 @@ use crate::engine::{replay_as, Ctx, Outcome, Tier};
 use proptest::prelude::*;
 use serde::{Deserialize, Serialize};
 use serde_json::Value;
+use std::net::SocketAddr;
 use turmoil_net::{Packet, Transport};
 
 pub const PROP: super::Prop = super::Prop { id: "C16", level: "exploration", check, replay };
@@ -39,6 +42,7 @@ const UPORT: u16 = 9200;
 const KEY_C2S: u8 = 0x42;
 const KEY_S2C: u8 = 0x9C;
 const KEY_UDP: u8 = 0x55;
+const MAX_EXTRA: usize = 3;
 
 #[derive(Clone, Debug, Serialize, Deserialize, PartialEq)]
 pub enum WOp {
@@ -72,6 +76,25 @@ pub struct UdpProbe {
     pub delta: i32,
 }
 
+/// An additional TCP connection that runs concurrently with the primary one, so that sockets
+/// whose paths imply different MSS values (v4 / v6, external / loopback) coexist on one host.
+#[derive(Clone, Debug, Serialize, Deserialize, PartialEq)]
+pub struct XConn {
+    /// host of the active opener
+    pub ch: usize,
+    /// 0 = cross-host (listener on the other host), 1 = over the opener's loopback,
+    /// 2 = to the opener's own routable address (folded back locally, external MTU)
+    pub scope: u8,
+    pub v6: bool,
+    /// rounds the opener waits before it connects (creation order of the sockets)
+    pub delay: u8,
+    /// the tasks of this connection come before those of the primary connection
+    /// (they are polled first in every round, so their sockets are created first)
+    pub first: bool,
+    pub client: Side,
+    pub server: Side,
+}
+
 #[derive(Clone, Debug, Serialize, Deserialize, PartialEq)]
 pub struct Scenario {
     pub cfg: Cfg,
@@ -82,16 +105,115 @@ pub struct Scenario {
     pub server: Side,
     pub plan: FatePlan,
     pub udp: Vec<UdpProbe>,
+    /// further concurrent TCP connections (absent in replay files older than this field)
+    #[serde(default)]
+    pub extra: Vec<XConn>,
+}
+
+/// One TCP connection of a scenario, resolved to hosts, slots, ports and keys.
+struct ConnSpec<'a> {
+    ch: usize,
+    sh: usize,
+    to: Option<usize>,
+    v6: bool,
+    /// 0 cross-host, 1 loopback, 2 own address
+    scope: u8,
+    port: u16,
+    lst: u8,
+    cslot: u8,
+    sslot: u8,
+    delay: u8,
+    client: &'a Side,
+    server: &'a Side,
+    key_c2s: u8,
+    key_s2c: u8,
+}
+
+fn xspec(i: usize, x: &XConn) -> ConnSpec<'_> {
+    let ch = x.ch % 2;
+    let (sh, to) = match x.scope % 3 {
+        0 => (1 - ch, Some(1 - ch)),
+        1 => (ch, None),
+        _ => (ch, Some(ch)),
+    };
+    ConnSpec {
+        ch,
+        sh,
+        to,
+        v6: x.v6,
+        scope: x.scope % 3,
+        port: PORT + 1 + i as u16,
+        lst: 1 + i as u8,
+        // slots are per host; keep them distinct from the primary's (0, 1) and from each other
+        sslot: 2 + 2 * i as u8,
+        cslot: 3 + 2 * i as u8,
+        delay: x.delay,
+        client: &x.client,
+        server: &x.server,
+        key_c2s: KEY_C2S.wrapping_add(7 * (i as u8 + 1)),
+        key_s2c: KEY_S2C.wrapping_add(11 * (i as u8 + 1)),
+    }
+}
+
+/// The connections in task order (each owns four consecutive tasks: server writer, server reader,
+/// client writer, client reader).  Without `extra` this is exactly the primary connection.
+fn conn_specs(sc: &Scenario) -> Vec<ConnSpec<'_>> {
+    let primary = ConnSpec {
+        ch: 0,
+        sh: if sc.lo { 0 } else { 1 },
+        to: if sc.lo { None } else { Some(1) },
+        v6: sc.v6,
+        scope: sc.lo as u8,
+        port: PORT,
+        lst: 0,
+        cslot: if sc.lo { 1 } else { 0 },
+        sslot: 0,
+        delay: 0,
+        client: &sc.client,
+        server: &sc.server,
+        key_c2s: KEY_C2S,
+        key_s2c: KEY_S2C,
+    };
+    let mut v: Vec<ConnSpec> = Vec::new();
+    let xs: Vec<(usize, &XConn)> = sc.extra.iter().take(MAX_EXTRA).enumerate().collect();
+    for (i, x) in xs.iter().filter(|(_, x)| x.first) {
+        v.push(xspec(*i, x));
+    }
+    v.push(primary);
+    for (i, x) in xs.iter().filter(|(_, x)| !x.first) {
+        v.push(xspec(*i, x));
+    }
+    v
+}
+
+/// MSS the property promises for a segment of this connection leaving host-side `scope`.
+fn path_mss(cfg: &Cfg, scope: u8, v6: bool) -> usize {
+    if scope == 1 {
+        cfg.lo_mss(v6)
+    } else {
+        cfg.mss(v6)
+    }
+}
+
+/// Per host: the MSS of every TCP endpoint the scenario places on it.
+fn host_endpoint_mss(sc: &Scenario) -> [Vec<usize>; 2] {
+    let mut m: [Vec<usize>; 2] = [Vec::new(), Vec::new()];
+    for c in conn_specs(sc) {
+        let mss = path_mss(&sc.cfg, c.scope, c.v6);
+        m[c.ch].push(mss);
+        m[c.sh].push(mss);
+    }
+    m
 }
 
 fn udp_len(sc: &Scenario, p: &UdpProbe) -> usize {
     (sc.cfg.udp_limit(p.v6, p.lo) as i64 + p.delta as i64).max(0) as usize
 }
 
-/// Tasks: 0 server writer, 1 server reader, 2 client writer, 3 client reader, 4.. UDP.
+/// Tasks: per connection (in `conn_specs` order) server writer, server reader, client writer,
+/// client reader; then the UDP tasks.  With no extra connection: 0 server writer, 1 server
+/// reader, 2 client writer, 3 client reader, 4.. UDP.
 pub fn build_scripts(sc: &Scenario) -> Vec<Script> {
-    let (ch, sh, to) = if sc.lo { (0usize, 0usize, None) } else { (0usize, 1usize, Some(1usize)) };
-    let (cslot, sslot) = if sc.lo { (1u8, 0u8) } else { (0u8, 0u8) };
     let wops = |side: &Side, slot: u8, key: u8, ops: &mut Vec<Op>| {
         for w in &side.w {
             match w {
@@ -114,24 +236,30 @@ pub fn build_scripts(sc: &Scenario) -> Vec<Script> {
         }
         ops.push(Op::Read { conn: slot, bufs: side.bufs.clone(), until: Until::Eof, key });
     };
-    let mut s_w = vec![Op::Listen { lst: 0, port: PORT, v6: sc.v6 }, Op::Accept { lst: 0, conn: sslot }];
-    wops(&sc.server, sslot, KEY_S2C, &mut s_w);
-    let mut s_r = vec![Op::WaitConn { conn: sslot }];
-    rops(&sc.server, sslot, KEY_C2S, &mut s_r);
-    s_r.push(Op::WaitTask { task: 0 });
-    s_r.push(Op::Drop { conn: sslot });
-    let mut c_w = vec![Op::Connect { conn: cslot, to, port: PORT, v6: sc.v6 }];
-    wops(&sc.client, cslot, KEY_C2S, &mut c_w);
-    let mut c_r = vec![Op::WaitConn { conn: cslot }];
-    rops(&sc.client, cslot, KEY_S2C, &mut c_r);
-    c_r.push(Op::WaitTask { task: 2 });
-    c_r.push(Op::Drop { conn: cslot });
-    let mut v = vec![
-        Script { host: sh, ops: s_w },
-        Script { host: sh, ops: s_r },
-        Script { host: ch, ops: c_w },
-        Script { host: ch, ops: c_r },
-    ];
+    let mut v: Vec<Script> = Vec::new();
+    for (pos, c) in conn_specs(sc).iter().enumerate() {
+        let base = (4 * pos) as u8;
+        let mut s_w = vec![Op::Listen { lst: c.lst, port: c.port, v6: c.v6 }, Op::Accept { lst: c.lst, conn: c.sslot }];
+        wops(c.server, c.sslot, c.key_s2c, &mut s_w);
+        let mut s_r = vec![Op::WaitConn { conn: c.sslot }];
+        rops(c.server, c.sslot, c.key_c2s, &mut s_r);
+        s_r.push(Op::WaitTask { task: base });
+        s_r.push(Op::Drop { conn: c.sslot });
+        let mut c_w = Vec::new();
+        if c.delay > 0 {
+            c_w.push(Op::Sleep { rounds: c.delay as u32 });
+        }
+        c_w.push(Op::Connect { conn: c.cslot, to: c.to, port: c.port, v6: c.v6 });
+        wops(c.client, c.cslot, c.key_c2s, &mut c_w);
+        let mut c_r = vec![Op::WaitConn { conn: c.cslot }];
+        rops(c.client, c.cslot, c.key_s2c, &mut c_r);
+        c_r.push(Op::WaitTask { task: base + 2 });
+        c_r.push(Op::Drop { conn: c.cslot });
+        v.push(Script { host: c.sh, ops: s_w });
+        v.push(Script { host: c.sh, ops: s_r });
+        v.push(Script { host: c.ch, ops: c_w });
+        v.push(Script { host: c.ch, ops: c_r });
+    }
     // UDP: every host binds four sockets (v4/v6 x external/loopback), then the probes run in order;
     // a receiver task per expected datagram
     let nhosts = 2;
@@ -179,8 +307,18 @@ struct Mon<'a> {
     tw: TableWire<'a>,
     fail: Option<(String, String)>,
     min_win: Option<u16>,
+    /// a window smaller than the MSS of the path it was advertised on was seen on the wire
+    small_win: bool,
     data_segments: u64,
     max_payload: usize,
+    /// MSS of every TCP endpoint per host (static, from the scenario)
+    ends_mss: [Vec<usize>; 2],
+    /// wire connections (tracker index) that carried payload, per source host
+    wire_senders: std::collections::BTreeSet<(usize, SocketAddr)>,
+    /// a segment of exactly its path's MSS left a host that also has an endpoint with a larger MSS
+    full_beside_larger: u64,
+    /// a wire segment carried exactly the MSS of its path
+    full_mss_seen: bool,
     full_sendq_seen: bool,
     full_recvq_seen: bool,
     udp_emitted: Vec<(usize, usize, bool)>, // (src host, payload len, pattern ok)
@@ -258,9 +396,22 @@ impl Wire for Mon<'_> {
                 }
                 if s.flags.ack && !s.flags.syn && !s.flags.rst {
                     self.min_win = Some(self.min_win.map_or(s.window, |w| w.min(s.window)));
+                    // the peer answers over the same interface and family
+                    if (s.window as usize) < mss {
+                        self.small_win = true;
+                    }
                 }
                 if !s.payload.is_empty() {
                     self.data_segments += 1;
+                    if s.payload.len() == mss {
+                        self.full_mss_seen = true;
+                    }
+                    if let Some(h) = rec.src_host.filter(|h| *h < 2) {
+                        self.wire_senders.insert((h, rec.src));
+                        if s.payload.len() == mss && self.ends_mss[h].iter().any(|m| *m > mss) {
+                            self.full_beside_larger += 1;
+                        }
+                    }
                     if let Some((c, e)) = tr.lookup(rec.src, rec.dst) {
                         let end = &tr.conns[c].ends[e];
                         if let (Some(isn), Some(w)) = (end.isn, end.win) {
@@ -301,6 +452,12 @@ pub fn valid(sc: &Scenario) -> Result<(), String> {
     if sc.cfg.mtu <= 60 && sc.v6 || sc.cfg.mtu <= 40 {
         return Err("MTU leaves no TCP payload room".into());
     }
+    if sc.cfg.mtu <= 60 && sc.extra.iter().any(|x| x.v6 && x.scope % 3 != 1) {
+        return Err("MTU leaves no TCP payload room for an extra IPv6 connection".into());
+    }
+    if sc.extra.len() > MAX_EXTRA {
+        return Err("too many extra connections".into());
+    }
     if sc.cfg.loopback_mtu <= 60 {
         return Err("loopback MTU leaves no TCP payload room".into());
     }
@@ -322,8 +479,13 @@ pub fn run(sc: &Scenario) -> Outcome {
         tw: TableWire::new(&sc.plan),
         fail: None,
         min_win: None,
+        small_win: false,
         data_segments: 0,
         max_payload: 0,
+        ends_mss: host_endpoint_mss(sc),
+        wire_senders: Default::default(),
+        full_beside_larger: 0,
+        full_mss_seen: false,
         full_sendq_seen: false,
         full_recvq_seen: false,
         udp_emitted: Vec::new(),
@@ -450,8 +612,12 @@ pub fn run(sc: &Scenario) -> Outcome {
 
     // classification
     let mss = if sc.lo { sc.cfg.lo_mss(sc.v6) } else { sc.cfg.mss(sc.v6) };
-    let small_win = mon.min_win.map(|w| (w as usize) < mss).unwrap_or(false);
-    let small_cap = sc.cfg.send_cap < mss || sc.cfg.recv_cap < mss;
+    let specs = conn_specs(sc);
+    let small_win = mon.small_win;
+    let small_cap = specs.iter().any(|c| {
+        let m = path_mss(&sc.cfg, c.scope, c.v6);
+        sc.cfg.send_cap < m || sc.cfg.recv_cap < m
+    });
     out.nontrivial = small_win || small_cap;
     if small_win {
         out.label("window<mss-advertised");
@@ -471,6 +637,48 @@ pub fn run(sc: &Scenario) -> Outcome {
         out.label("path:cross-host");
     }
     out.label(if sc.v6 { "ipv6" } else { "ipv4" });
+    out.label(format!("tcp-connections:{}", specs.len()));
+    if specs.len() > 1 {
+        let (mut v4, mut v6) = (false, false);
+        for c in &specs {
+            if c.v6 {
+                v6 = true;
+            } else {
+                v4 = true;
+            }
+        }
+        if v4 && v6 {
+            out.label("conns:v4-and-v6-mixed");
+        }
+        let scopes: std::collections::BTreeSet<u8> = specs.iter().map(|c| c.scope).collect();
+        if scopes.len() > 1 {
+            out.label("conns:scopes-mixed(cross-host/loopback/own-address)");
+        }
+        if scopes.contains(&2) {
+            out.label("conns:own-address");
+        }
+        if specs[0].port != PORT {
+            out.label("conns:extra-created-before-primary");
+        }
+        if sc.extra.iter().any(|x| x.delay > 0) {
+            out.label("conns:delayed-opener");
+        }
+    }
+    for h in 0..2 {
+        let mut m = mon.ends_mss[h].clone();
+        m.sort();
+        m.dedup();
+        if m.len() > 1 {
+            out.label("host-with-sockets-of-different-mss");
+            // a wire-visible sender on this host whose own MSS is not the largest one there
+            if mon.wire_senders.iter().any(|(sh, a)| *sh == h && sc.cfg.mss(a.is_ipv6()) < *m.last().unwrap()) {
+                out.label("wire-sender-beside-larger-mss-socket");
+            }
+        }
+    }
+    if mon.full_beside_larger > 0 {
+        out.label("full-mss-segment-beside-larger-mss-socket");
+    }
     if mss <= 4 {
         out.label("mtu-near-header-size(mss<=4)");
     }
@@ -486,7 +694,7 @@ pub fn run(sc: &Scenario) -> Outcome {
     if try_ok > 0 {
         out.label("try_write:Ok");
     }
-    if mon.max_payload == mss && !sc.lo {
+    if mon.full_mss_seen {
         out.label("full-mss-segment-seen");
     }
     if udp_rejected > 0 {
@@ -598,9 +806,51 @@ fn udp_strategy() -> BoxedStrategy<Vec<UdpProbe>> {
     .boxed()
 }
 
+fn xconn_strategy() -> BoxedStrategy<XConn> {
+    (
+        0usize..2,
+        prop_oneof![3 => Just(0u8), 2 => Just(1u8), 1 => Just(2u8)],
+        any::<bool>(),
+        prop_oneof![3 => Just(0u8), 2 => 1u8..=3],
+        any::<bool>(),
+        side_strategy(),
+        side_strategy(),
+    )
+        .prop_map(|(ch, scope, v6, delay, first, client, server)| XConn { ch, scope, v6, delay, first, client, server })
+        .boxed()
+}
+
+fn extra_strategy() -> BoxedStrategy<Vec<XConn>> {
+    prop_oneof![
+        2 => Just(Vec::new()),
+        3 => proptest::collection::vec(xconn_strategy(), 1),
+        3 => proptest::collection::vec(xconn_strategy(), 2),
+        1 => proptest::collection::vec(xconn_strategy(), MAX_EXTRA),
+    ]
+    .boxed()
+}
+
+/// Make the configuration admissible for the connections (shared with `fuzz_sanitize`): an
+/// IPv6 connection through the external interface needs more than 60 bytes of MTU.
+fn fit_mtu(sc: &mut Scenario) {
+    let v6_external = sc.v6 || sc.extra.iter().any(|x| x.v6 && x.scope % 3 != 1);
+    if v6_external && sc.cfg.mtu <= 60 {
+        // v6 keeps the payload room that was drawn for v4, v4 gets 20 bytes more
+        sc.cfg.mtu += 20;
+    }
+}
+
 pub fn strategy() -> BoxedStrategy<Scenario> {
-    (cfg_strategy(), prop_oneof![4 => Just(false), 1 => Just(true)], side_strategy(), side_strategy(), plan_strategy(), udp_strategy())
-        .prop_map(|((mut cfg, v6), lo, client, server, plan, mut udp)| {
+    (
+        cfg_strategy(),
+        prop_oneof![4 => Just(false), 1 => Just(true)],
+        side_strategy(),
+        side_strategy(),
+        plan_strategy(),
+        udp_strategy(),
+        extra_strategy(),
+    )
+        .prop_map(|((mut cfg, v6), lo, client, server, plan, mut udp, extra)| {
             // keep oversized UDP payload buffers small unless the loopback MTU is the default
             for p in udp.iter_mut() {
                 if p.delta > 1000 && (p.lo && cfg.loopback_mtu > 10_000) {
@@ -610,19 +860,140 @@ pub fn strategy() -> BoxedStrategy<Scenario> {
             if cfg.loopback_mtu > 65_536 {
                 cfg.loopback_mtu = 65_536;
             }
-            Scenario { cfg, v6, lo, client, server, plan, udp }
+            let mut sc = Scenario { cfg, v6, lo, client, server, plan, udp, extra };
+            fit_mtu(&mut sc);
+            sc
         })
         .boxed()
+}
+
+/// Bounded family: every pair of path kinds side by side on host 0, in both creation orders.
+/// The primary connection (opened by host 0: cross-host or loopback, v4 or v6) runs next to one
+/// extra connection (cross-host opened by host 0 or by host 1, loopback or own address of host 0,
+/// v4 or v6), the extra one created before or after the primary, under three MTU settings
+/// (defaults; external < loopback; external > loopback).  Both ends of both connections write
+/// three bursts of several MSS, one round apart, into buffers that take it all, so that sockets
+/// of both connections have more than one MSS unsent in the same egress pass.
+fn pair_space() -> Vec<Scenario> {
+    let mut v = Vec::new();
+    for (mtu, lomtu) in [(1500u32, 65_536u32), (100, 300), (300, 100)] {
+        let cfg = Cfg { mtu, loopback_mtu: lomtu, send_cap: 65_536, recv_cap: 65_536, retx_threshold: 3, retx_max: 5 };
+        let n = 3 * cfg.mss(false).max(cfg.lo_mss(false)).min(3000) as u32 + 7;
+        // three bursts one round apart: a loopback connection is established (and flushes every
+        // burst) inside one egress pass, a cross-host one two rounds later, so bursts overlap
+        let side = || Side { w: vec![WOp::Write(n), WOp::Sleep(1), WOp::Write(n), WOp::Sleep(1), WOp::Write(n)], r: vec![], bufs: vec![2048] };
+        for plo in [false, true] {
+            for pv6 in [false, true] {
+                // (opener host, scope)
+                for (xch, xscope) in [(0usize, 0u8), (1, 0), (0, 1), (0, 2)] {
+                    for xv6 in [false, true] {
+                        for first in [false, true] {
+                            v.push(Scenario {
+                                cfg: cfg.clone(),
+                                v6: pv6,
+                                lo: plo,
+                                client: side(),
+                                server: side(),
+                                plan: FatePlan::default(),
+                                udp: vec![],
+                                extra: vec![XConn { ch: xch, scope: xscope, v6: xv6, delay: 0, first, client: side(), server: side() }],
+                            });
+                        }
+                    }
+                }
+            }
+        }
+    }
+    v
+}
+
+/// Clamp a structurally decoded scenario into the generator's domain (fuzz tier).
+pub fn fuzz_sanitize(sc: &mut Scenario) -> bool {
+    sc.cfg.mtu = 41 + sc.cfg.mtu % 1480;
+    sc.cfg.loopback_mtu = 61 + sc.cfg.loopback_mtu % 65_476;
+    sc.cfg.send_cap = 1 + sc.cfg.send_cap % 65_536;
+    sc.cfg.recv_cap = 1 + sc.cfg.recv_cap % 65_536;
+    sc.cfg.retx_threshold = 1 + sc.cfg.retx_threshold % 4;
+    sc.cfg.retx_max = 2 + sc.cfg.retx_max % 4;
+    fn fix_side(s: &mut Side) {
+        s.w.truncate(6);
+        for w in s.w.iter_mut() {
+            match w {
+                WOp::Write(n) => *n = 1 + *n % 400,
+                WOp::TryWrite(n) => *n = 1 + *n % 80,
+                WOp::Sleep(k) => *k = 1 + *k % 3,
+            }
+        }
+        s.r.truncate(5);
+        for r in s.r.iter_mut() {
+            match r {
+                ROp::Read(n) => *n = 1 + *n % 30,
+                ROp::TryRead(n) => *n = 1 + *n % 40,
+                ROp::Sleep(k) => *k = 1 + *k % 4,
+            }
+        }
+        s.bufs.truncate(2);
+        for b in s.bufs.iter_mut() {
+            *b = 1 + *b % 2048;
+        }
+        if s.bufs.is_empty() {
+            s.bufs.push(64);
+        }
+    }
+    fix_side(&mut sc.client);
+    fix_side(&mut sc.server);
+    sc.extra.truncate(MAX_EXTRA);
+    for x in sc.extra.iter_mut() {
+        x.ch %= 2;
+        x.scope %= 3;
+        x.delay %= 4;
+        fix_side(&mut x.client);
+        fix_side(&mut x.server);
+    }
+    sc.plan.by_id.truncate(60);
+    for f in sc.plan.by_id.iter_mut() {
+        if let Fate::Hold(k) = f {
+            *k = 1 + *k % 5;
+        }
+    }
+    sc.plan.by_kind.clear();
+    sc.plan.prio.truncate(60);
+    for p in sc.plan.prio.iter_mut() {
+        *p %= 4;
+    }
+    sc.plan.max_drops %= 3;
+    sc.plan.max_hold %= 6;
+    sc.plan.blackhole = None;
+    sc.udp.truncate(4);
+    for p in sc.udp.iter_mut() {
+        p.from %= 2;
+        if p.delta != 70_000 {
+            p.delta = p.delta.clamp(-200, 40);
+        }
+        // same guard as the generator: no 130 KB buffers on a default-sized loopback
+        if p.delta > 1000 && p.lo && sc.cfg.loopback_mtu > 10_000 {
+            p.delta = 1;
+        }
+    }
+    fit_mtu(sc);
+    valid(sc).is_ok()
 }
 
 fn check(tier: Tier, seed: u64) -> i32 {
     let ctx = Ctx::new("C16", tier, seed, "exploration");
     ctx.replay_corpus(&replay);
-    ctx.random("monitors", tier.pick(6_000, 80_000), &|| strategy(), &run);
+    ctx.random("monitors", tier.pick(12_000, 80_000), &|| strategy(), &run);
+    let space = pair_space();
+    let desc = format!(
+        "{} scenarios: primary connection (cross-host | loopback) x (v4 | v6) beside one extra connection (cross-host opened by either host | loopback | own address) x (v4 | v6), extra created before | after the primary, x 3 MTU settings (1500/65536, 100/300, 300/100); all four writers queue three bursts of > 3 MSS, one round apart",
+        space.len()
+    );
+    ctx.exhaustive("mss-pairs", &desc, Box::new(space.into_iter()), &run);
     ctx.finish(
-        "random scenarios: KernelConfig (mtu = headers + 1..1460 with emphasis on 1-4 bytes of payload room, loopback_mtu likewise, send/recv caps 1..64K chosen independently, v4/v6) x one TCP connection cross-host (80%) or over loopback (20%), both directions, writers mixing write_all, try_write bursts and pauses, readers mixing exact reads, try_read and pauses (so windows shrink, close and re-open) x fate plan (holds 1-5 rounds, delivery priorities, <= 2 drops) x 0-4 UDP sends of limit-200..limit+40 (and 70 000) bytes cross-host and to loopback, v4 and v6. Non-trivial = a window smaller than one MSS was advertised at least once or a cap is smaller than one MSS; distinct by scenario hash.",
+        "random scenarios: KernelConfig (mtu = headers + 1..1460 with emphasis on 1-4 bytes of payload room, loopback_mtu likewise, send/recv caps 1..64K chosen independently, v4/v6) x one primary TCP connection cross-host (80%) or over loopback (20%) plus 0-3 further concurrent TCP connections (each opened by either host, cross-host / over the opener's loopback / to the opener's own address, v4 or v6 independently of the primary, connect delayed 0-3 rounds, tasks placed before or after the primary's so that sockets with different MSS — v4 vs v6, external vs loopback — coexist on one host in every creation order), every connection in both directions, writers mixing write_all, try_write bursts and pauses, readers mixing exact reads, try_read and pauses (so windows shrink, close and re-open) x fate plan (holds 1-5 rounds, delivery priorities, <= 2 drops) x 0-4 UDP sends of limit-200..limit+40 (and 70 000) bytes cross-host and to loopback, v4 and v6; plus the bounded family 'mss-pairs' (all pairs of path kinds side by side on one host, both creation orders, 3 MTU settings, bulk writes). Non-trivial = a window smaller than the MSS of its path was advertised at least once or a cap is smaller than the MSS of one of the connections; distinct by scenario hash.",
         &[
-            "loopback segments are folded back inside Kernel::egress and never reach the harness: on the loopback path only the cap and try_write clauses are checked, not MSS or window",
+            "loopback and own-address segments are folded back inside Kernel::egress and never reach the harness: on those paths only the cap and try_write clauses are checked, not MSS or window; such connections still share the host's socket table with the wire-visible ones",
+            "the expected MSS of a wire segment is mtu - 20 (IPv4 source) or - 40 (IPv6 source) - 20, from the segment's own source address; if an extra IPv6 connection uses the external interface the generator raises an MTU <= 60 by 20 so that every connection has >= 1 byte of payload room",
             "una/W of the window clause are computed from segments already *delivered* to the sender (the harness is the wire); a FIN is not counted as a byte in flight",
             "the try_write clause is evaluated only when the connection is visible in netstat just before the call (an aborted/closed socket is hidden) and the call did not fail for another reason",
             "UDP datagrams are never dropped or delayed by this check; MTU payload room >= 1 byte, caps >= 1",
